@@ -104,6 +104,43 @@ Example seq_iterable_refuted :
 Proof. vm_compute. repeat split. Qed.
 
 (* ---------------------------------------------------------------------------------------- *)
+(* containment agrees with equality                                                         *)
+(* ---------------------------------------------------------------------------------------- *)
+(* `v in c` for a list, tuple or lazy iterable (either map implementation): some element of c
+   is == v *)
+Theorem in_iff_exists_eq : forall o c v xs, (c = VSeq xs \/ c = VTuple xs \/ exists sh, c = VIter sh xs) ->
+  exists b, contains_o o c v = Ok b /\ (b = true <-> exists e, In e xs /\ veq_o o e v = true).
+Proof. exact contains_seq. Qed.
+
+(* `v in m` for a map (default build): some key of m is == v, and exactly when m[v] is
+   defined -- outside the known pair classes, NaN aside *)
+Theorem in_map_iff_exists_eq_key : forall kvs v, wf (VMap kvs) = true -> wf v = true -> nan_free v = true ->
+  (forall kv, In kv kvs -> ~ Known v (fst kv)) ->
+  exists b, contains_o Sorted (VMap kvs) v = Ok b /\
+            (b = true <-> exists kv, In kv kvs /\ veq v (fst kv) = true) /\
+            (b = true <-> exists x, map_get v kvs = Some x).
+Proof.
+  intros kvs v W Wv NF NK. apply contains_map; auto.
+  intros kv H. specialize (NK kv H). unfold Known in NK. destruct (cross_kind v (fst kv)); congruence.
+Qed.
+
+(* `t in s` for two strings: t is a substring of s *)
+Theorem in_string_iff_substring : forall o f s g t,
+  contains_o o (VStr f s) (VStr g t) = Ok (is_infix t s) /\
+  (is_infix t s = true <-> exists pre post, s = pre ++ t ++ post).
+Proof. exact contains_strings. Qed.
+
+(* a bytes needle that spells a string key is not that key; known finding: true vs 1 *)
+Example containment_examples :
+  contains_o Sorted (VMap [(VStr false [97; 98; 99], VInt W_I64 1)]) (VBytes [97; 98; 99]) = Ok false /\
+  contains_o Sorted (VMap [(VStr false [97; 98; 99], VInt W_I64 1)]) (VStr true [97; 98; 99]) = Ok true /\
+  contains_o Sorted (VSeq [VStr false [97; 98; 99]]) (VBytes [97; 98; 99]) = Ok false /\
+  contains_o Sorted (VMap [(VInt W_I64 1, VNone)]) (VBool true) = Ok false /\
+  contains_o Sorted (VSeq [VInt W_I64 1]) (VBool true) = Ok true /\
+  contains_o Insertion (VMap [(VInt W_I64 1, VNone)]) (VBool true) = Ok true.
+Proof. vm_compute. repeat split. Qed.
+
+(* ---------------------------------------------------------------------------------------- *)
 (* feature `preserve_order`: IndexMap-backed maps                                           *)
 (* ---------------------------------------------------------------------------------------- *)
 (* [veq_i] is == with IndexMap lookups (hash, then ==; == alone for a single entry); cmp and
@@ -332,6 +369,9 @@ Print Assumptions cmp_total.
 Print Assumptions cmp_eq_compat.
 Print Assumptions wf_implies_wfn.
 Print Assumptions map_build_wf.
+Print Assumptions in_iff_exists_eq.
+Print Assumptions in_map_iff_exists_eq_key.
+Print Assumptions in_string_iff_substring.
 Print Assumptions cmp_eq_iff_veq_indexmap_partial.
 Print Assumptions veq_hash_indexmap_partial.
 Print Assumptions cmp_eq_iff_veq.
